@@ -34,7 +34,7 @@ def gen_cases(ctx):
     for seq in itertools.product(alpha3, repeat=3 if th else 2):
         cases.append(("ex-3threads", "ex 3 " + " ".join(["0l", "0l", "1g"] + list(seq))))
     # (d) random long runs, 2-4 threads
-    for i in range(6000 if th else 500):
+    for i in range(5000 if th else 300):
         n = r.choice([2, 2, 3, 3, 4])
         cases.append(("random", "rnd %d %d %d" % (n, r.next() >> 1, r.choice([20, 40, 80, 160]))))
     return cases
